@@ -81,12 +81,18 @@ pub fn workers() -> usize {
         })
 }
 
+pub static JOBS_SKIPPED: AtomicUsize = AtomicUsize::new(0);
+
 /// Run `n_jobs` jobs on `n_workers` threads; `f(job_index)`.
 pub fn run_parallel<F>(n_jobs: usize, n_workers: usize, f: F)
 where
     F: Fn(usize) + Send + Sync,
 {
     let next = AtomicUsize::new(0);
+    // every run is capped in time: once the budget (from process start) is used up no new scenario
+    // is started; what was skipped is reported in the evidence and the verdict is taken on what ran
+    let thorough = std::env::args().any(|a| a == "thorough");
+    let budget_ns = std::env::var("PGV_TIME_BUDGET_S").ok().and_then(|v| v.parse::<u64>().ok()).unwrap_or(if thorough { 4500 } else { 480 }) * 1_000_000_000;
     std::thread::scope(|s| {
         for w in 0..n_workers.max(1).min(n_jobs.max(1)) {
             let next = &next;
@@ -97,6 +103,10 @@ where
                     let i = next.fetch_add(1, Ordering::SeqCst);
                     if i >= n_jobs {
                         break;
+                    }
+                    if crate::util::now_ns().saturating_sub(crate::util::process_t0()) > budget_ns {
+                        JOBS_SKIPPED.fetch_add(1, Ordering::SeqCst);
+                        continue;
                     }
                     f(i);
                 })
